@@ -132,6 +132,11 @@ func checkC19(w *World, r *Report) {
 			r.Undecided("Q-5", "ImmutableLedgerAt", "the historical-read constructor could not be analysed")
 		}
 	}
+	// Q-7: what a query returns for a height is what the block committed; a store
+	// answer the controllers misread (a wrapped not-found sentinel) changes that (C18 L-5)
+	if r.importObs(w, func(t *Report) { l5(w, t) }, "L-5", "Q-7") == 0 {
+		r.Undecided("Q-7", "sentinel-identity", "no sentinel comparison analysed")
+	}
 	r.Floor("Q-1", 12, "ledger calls / scratch-wrapper writes on the query path")
 	r.Floor("Q-2", 12, "immutable-ledger reads in the query handlers")
 	r.Floor("Q-3", 4, "height default and dispatch agreement")
